@@ -272,6 +272,18 @@ m('c12_fast_candidates_unsorted', ['C02'], 'jesse/modes/backtest_mode.py',
 #  fill: a MARKET order queued by a fill callback rests at the fill price and is matched as the next candidate of that minute)
 
 # ---- C01 -----------------------------------------------------------------------------------------
+m('c01_step_clock_and_data_one_minute_ahead', ['C01'], 'jesse/modes/backtest_mode.py',
+  """        store.app.time = first_candles_set[i][0] + 60_000
+
+        # add candles
+        for j in candles:
+            short_candle = candles[j]['candles'][i]""", """        _ii = min(i + 1, length - 1) if i >= 90 else i
+        store.app.time = first_candles_set[_ii][0] + 60_000
+
+        # add candles
+        for j in candles:
+            short_candle = candles[j]['candles'][_ii]""",
+  note='from minute 90 on the normal simulator processes the NEXT candle and moves its clock with it: a cut derived from the clock moves with the defect; the position-based cut does not')
 m('c01_tf_close_peeks_next_open', ['C01', 'C07'], 'jesse/modes/backtest_mode.py',
   """                        candles[j]['candles'][(i - (count - 1)):(i + 1)]
                     )
